@@ -490,3 +490,169 @@ def generate(seed, n, prof, start_id=0):
         h = Hist(rng, prof, "h%d" % (start_id + i))
         out.append(("h%d" % (start_id + i), h.run()))
     return out
+
+
+# ---------------------------------------------------------------------------------------------
+# C10: export / import round trips and hostile node streams
+
+def _rand_stream(r, nleaves, ver_max):
+    """a well-formed post-order stream of a random AVL-shaped tree: list of [key, value, version, height]"""
+    keys = sorted({bytes([r.randrange(97, 123) for _ in range(r.randint(1, 3))]) for _ in range(nleaves)})
+
+    def build(ks):
+        if len(ks) == 1:
+            return [[ks[0], bytes([r.randrange(256)]), r.randint(1, ver_max), 0]], 0
+        mid = (len(ks) + 1) // 2
+        l, hl = build(ks[:mid])
+        rr, hr = build(ks[mid:])
+        h = max(hl, hr) + 1
+        v = max(l[-1][2], rr[-1][2], r.randint(1, ver_max))
+        return l + rr + [[ks[mid], None, v, h]], h
+    if not keys:
+        return []
+    return build(keys)[0]
+
+
+def _fmt_nodes(nodes):
+    out = []
+    for n in nodes:
+        if n is None:
+            out.append("nil")
+        else:
+            out.append("%s/%s/%d/%d" % (enc(n[0]), enc(n[1]), n[2], n[3]))
+    return ",".join(out) if out else "-"
+
+
+def _mutate_stream(r, nodes, import_ver):
+    nodes = [list(n) for n in nodes]
+    for _ in range(r.randint(1, 3)):
+        if not nodes:
+            break
+        i = r.randrange(len(nodes))
+        m = r.randrange(14)
+        if nodes[i] is None:
+            continue
+        if m == 0:
+            nodes[i][2] = r.choice([-1, -5, 0, import_ver + 1, 2 ** 40])
+        elif m == 1:
+            nodes[i][3] = r.choice([-1, -128, 0, 1, 2, 5, 127])
+        elif m == 2:
+            nodes[i][0] = None
+        elif m == 3:
+            nodes[i][1] = None if nodes[i][1] is not None else b"v"
+        elif m == 4:
+            del nodes[i]
+        elif m == 5:
+            nodes.insert(i, list(nodes[i]))
+        elif m == 6:
+            j = r.randrange(len(nodes))
+            nodes[i], nodes[j] = nodes[j], nodes[i]
+        elif m == 7:
+            nodes[i] = None
+        elif m == 8:
+            nodes[i][0] = b""
+        elif m == 9:
+            nodes = nodes[:i]
+        elif m == 10:
+            nodes.append([b"zz", None, 1, r.randint(1, 4)])
+        elif m == 11:
+            nodes[i][1] = b""
+        elif m == 12:
+            nodes = [[b"k", None, 1, 3]] + nodes
+        else:
+            nodes[i][2] = import_ver
+    return nodes
+
+
+def _zip_hostile(r, import_ver):
+    """a hostile compressed stream: delta prefixes longer than the previous key, branch nodes without
+    subtrees, huge shared lengths, nil nodes"""
+    out = []
+    for _ in range(r.randint(1, 5)):
+        m = r.randrange(8)
+        if m == 0:
+            out.append([None, None, r.randint(-3, 3), r.randint(1, 3)])           # branch on empty stacks
+        elif m == 1:
+            out.append([bytes([r.randint(1, 9)]) + b"a", b"v", 1, 0])             # shared > len(lastKey)
+        elif m == 2:
+            out.append([b"\xff\xff\xff\xff\xff\xff\xff\xff\xff\x01" + b"a", b"v", 1, 0])  # huge shared
+        elif m == 3:
+            out.append([b"", b"v", 1, 0])                                         # empty delta: uvarint fails
+        elif m == 4:
+            out.append(None)
+        elif m == 5:
+            out.append([b"\x00" + bytes([r.randrange(97, 123)]), b"v", r.randint(1, import_ver), 0])
+        elif m == 6:
+            out.append([b"\x80", b"v", 1, 0])                                     # truncated uvarint
+        else:
+            out.append([None, b"x", 0, 1])
+    return out
+
+
+def gen_c10(seed, n, start_id=0):
+    out = []
+    prof = Profile(p_prune=0.15, p_loadow=0.05, p_reopen=0.1, check_all_versions=0.0, big=0.15,
+                   reads_per_version=(0, 1), imm_reads_per_version=(0, 0), meta_per_version=(0, 0),
+                   p_hash_read=0.1, versions=(1, 6), p_empty_value=0.05)
+    for i in range(n):
+        rng = random.Random((seed * 7919 + start_id + i) & 0xFFFFFFFFFFFF)
+        hid = "x%d" % (start_id + i)
+        kind = rng.random()
+        if kind < 0.55:
+            # genuine round trip
+            h = Hist(rng, prof, hid)
+            lines = h.run()
+            # drop the final sweep (cheap) and export
+            vs = sorted(h.versions)
+            if not vs:
+                out.append((hid, lines))
+                continue
+            v = rng.choice(vs)
+            mode = rng.choice(["plain", "zip"])
+            lines.append("imm %d export %s store=s" % (v, mode))
+            lines.append("imm %d hash" % v)
+            lines.append("fresh")
+            lines.append("cfg db=%s cache=%d fast=%d thr=%d iv=-" % (
+                rng.choice(["mem", "ldb", "pfx:x70ff"]), rng.choice([0, 2, 100]), rng.randint(0, 1), rng.choice([0, 200, 1000])))
+            lines.append("open")
+            iv = v if rng.random() < 0.8 else v + rng.randint(1, 3)   # importing at a later version is allowed
+            lines.append("import %d %s stream=s" % (iv, mode))
+            m = h.versions[v]
+            lines += ["avail", "latest", "lhash", "hash", "size", "height", "miterate", "vexists %d" % v,
+                      "vexists %d" % max(0, v - 1)]
+            for k in sorted(m)[:6]:
+                lines.append("get " + enc(k))
+                lines.append("imm %d proof %s" % (iv, enc(k)))
+            lines.append("imm %d proof %s" % (iv, enc(b"\x00\x00nope")))
+            # behaves identically under further writes
+            h2keys = h.keys
+            for _ in range(rng.randint(1, 3)):
+                for _ in range(rng.randint(0, 4)):
+                    if rng.random() < 0.3 and m:
+                        lines.append("rm " + enc(rng.choice(sorted(m))))
+                    else:
+                        lines.append("set %s %s" % (enc(rng.choice(h2keys)), enc(bytes([rng.randrange(256)]))))
+                lines.append("save")
+            lines += ["avail", "miterate", "close", "open", "avail", "lhash", "miterate"]
+            if rng.random() < 0.3:
+                lines += ["prune %d" % iv, "avail", "miterate", "lhash"]
+            out.append((hid, lines))
+        else:
+            lines = ["new " + hid, "cfg db=mem cache=%d fast=%d thr=%d iv=-" % (rng.choice([0, 100]), rng.randint(0, 1), rng.choice([0, 200])), "open"]
+            import_ver = rng.choice([1, 2, 3, 5])
+            zipm = rng.random() < 0.4
+            if zipm:
+                nodes = _zip_hostile(rng, import_ver)
+            else:
+                nodes = _rand_stream(rng, rng.randint(0, 7), import_ver)
+                if rng.random() < 0.85:
+                    nodes = _mutate_stream(rng, nodes, import_ver)
+            flags = ""
+            if rng.random() < 0.15:
+                flags = " nocommit"
+            lines.append("import %d %s nodes=%s%s" % (import_ver, "zip" if zipm else "plain", _fmt_nodes(nodes), flags))
+            # nothing is visible unless Commit succeeded; the tree stays usable
+            lines += ["avail", "latest", "size", "lhash", "close", "open", "avail", "size", "lhash"]
+            lines += ["ifempty miterate", "ifempty set x61 x31", "ifempty rm x61", "ifempty set x62 x32", "ifempty save", "avail"]
+            out.append((hid, lines))
+    return out
